@@ -14,6 +14,7 @@ import (
 	"encoding/json"
 	"fmt"
 	"sort"
+	"strings"
 	"testing"
 
 	"github.com/ChainSafe/gossamer/internal/database"
@@ -150,13 +151,57 @@ func vtsProbe(steps []vtsStep) [][]byte {
 
 type vtdTrie = TrieDB[hash.H256, runtime.BlakeTwo256]
 
+func vtsCopy(k []byte) []byte { c := make([]byte, len(k)); copy(c, k); return c }
+
+func vtsNibbles(k []byte) []byte {
+	out := make([]byte, 0, 2*len(k))
+	for _, b := range k {
+		out = append(out, b>>4, b&0x0f)
+	}
+	return out
+}
+
+// vtsValuelessBranchPoint: pk is absent from m but is exactly the position of a branch node
+// (at least two stored keys continue pk with different nibbles).
+func vtsValuelessBranchPoint(pk []byte, m map[string][]byte) bool {
+	if _, ok := m[string(pk)]; ok {
+		return false
+	}
+	p := vtsNibbles(pk)
+	next := map[byte]struct{}{}
+	for k := range m {
+		n := vtsNibbles([]byte(k))
+		if len(n) > len(p) && bytes.Equal(n[:len(p)], p) {
+			next[n[len(p)]] = struct{}{}
+		}
+	}
+	return len(next) >= 2
+}
+
+// vtsFeatures joins the input-class features that separate the causes of disagreement:
+//   long-key  a key of 32 bytes or more was passed to Put/Delete in this behaviour
+//   wac       the working instance was written after it had been committed / reopened on a non-empty root
+//             (its nodes were loaded from the database)
+func vtsFeatures(fs ...string) string {
+	var out []string
+	for _, f := range fs {
+		if f != "" {
+			out = append(out, f)
+		}
+	}
+	if len(out) == 0 {
+		return "plain"
+	}
+	return strings.Join(out, "+")
+}
+
 func vtdBuild(t *testing.T, db *vtdDB, m map[string][]byte, v1 bool) (*vtdTrie, hash.H256) {
 	tr := NewEmptyTrieDB[hash.H256, runtime.BlakeTwo256](db)
 	if v1 {
 		tr.SetVersion(trie.V1)
 	}
 	for _, k := range vSortedKeys(m) {
-		if err := tr.Put([]byte(k), m[k]); err != nil {
+		if err := tr.Put(vtsCopy([]byte(k)), m[k]); err != nil {
 			t.Fatalf("VERIF-INFRA resync put: %v", err)
 		}
 	}
@@ -195,6 +240,7 @@ func TestVerifTrieStoreTrieDB(t *testing.T) {
 			tr.SetVersion(trie.V1)
 		}
 		lastRoot := runtime.BlakeTwo256{}.Hash([]byte{0})
+		longKey, wac, baseNonEmpty := "", "", false
 		var prefix []json.RawMessage
 		for si, s := range steps {
 			prefix = append(prefix, b.Steps[si])
@@ -212,14 +258,18 @@ func TestVerifTrieStoreTrieDB(t *testing.T) {
 			}
 			res.Case(o.Op, fmt.Sprintf("%x|%d|%d|%v", k, len(v), len(work), s.Obs.V1))
 			// reads of every probe key through instance x against map m
-			reads := func(x *vtdTrie, m map[string][]byte, who, cls string) {
+			reads := func(x *vtdTrie, m map[string][]byte, who string) {
 				for _, pk := range probe {
 					var got []byte
-					pm := vTry(func() { got = x.Get(pk) })
+					pm := vTry(func() { c := make([]byte, len(pk)); copy(c, pk); got = x.Get(c) })
 					res.Cmp()
 					exp, present := m[string(pk)]
 					if pm != "" {
-						fail("panic", "no panic", pm, who+"/Get/"+cls+"/panic")
+						vlb := ""
+						if strings.Contains(pm, "unreachable") && vtsValuelessBranchPoint(pk, m) {
+							vlb = "absent-key-at-valueless-branch"
+						}
+						fail("panic", fmt.Sprintf("no panic key=%x", pk), pm, who+"/Get/"+vtsFeatures(longKey, wac, vlb)+"/panic")
 						return
 					}
 					if present != (got != nil) {
@@ -227,80 +277,120 @@ func TestVerifTrieStoreTrieDB(t *testing.T) {
 						if present {
 							kind = "present-key-read-as-absent"
 						}
-						fail("found", fmt.Sprintf("%v key=%x", present, pk), fmt.Sprintf("%v (%x)", got != nil, got), who+"/Get/"+cls+"/"+kind)
+						fail("found", fmt.Sprintf("%v key=%x", present, pk), fmt.Sprintf("%v (%x)", got != nil, got), who+"/Get/"+vtsFeatures(longKey, wac)+"/"+kind)
 						return
 					}
 					if present && !bytes.Equal(got, exp) {
-						fail("value", fmt.Sprintf("key=%x %x", pk, exp), vHex(got), who+"/Get/"+cls+"/wrong-value")
+						fail("value", fmt.Sprintf("key=%x %x", pk, exp), vHex(got), who+"/Get/"+vtsFeatures(longKey, wac)+"/wrong-value")
 						return
 					}
 				}
 			}
+			errClass := func(kind, msg string) string {
+				switch {
+				case strings.Contains(msg, "not enough nibbles"):
+					return kind + "-not-enough-nibbles-to-advance"
+				case strings.Contains(msg, "looking up node"):
+					return kind + "-looking-up-node"
+				case strings.Contains(msg, "unreachable"):
+					return kind + "-unreachable"
+				}
+				return kind
+			}
+			kk := make([]byte, len(k)) // the engine gets its own copy (capacity = length); it must come back unchanged
+			copy(kk, k)
+			if (o.Op == "Put" || o.Op == "Delete") && len(k) >= 32 {
+				longKey = "long-key"
+			}
+			if (o.Op == "Put" || o.Op == "Delete") && baseNonEmpty {
+				wac = "wac"
+			}
 			pm := vTry(func() {
 				switch o.Op {
 				case "Put":
-					if err := tr.Put(k, v); err != nil {
-						fail("err", "nil", err.Error(), "Put/error")
+					if err := tr.Put(kk, v); err != nil {
+						fail("err", "nil", err.Error(), "Put/"+vtsFeatures(longKey, wac)+"/"+errClass("error", err.Error()))
 					}
 				case "Delete":
-					if err := tr.Delete(k); err != nil {
-						fail("err", "nil", err.Error(), "Delete/error")
+					if err := tr.Delete(kk); err != nil {
+						fail("err", "nil", err.Error(), "Delete/"+vtsFeatures(longKey, wac)+"/"+errClass("error", err.Error()))
 					}
 				case "SetVersion":
 					tr.SetVersion(trie.V1)
 				case "Commit":
 					r, err := tr.Hash()
 					if err != nil {
-						fail("err", "nil", err.Error(), "Commit/error")
+						fail("err", "nil", err.Error(), "Commit/"+vtsFeatures(longKey, wac)+"/"+errClass("error", err.Error()))
 						return
 					}
 					lastRoot = r
-					cls := vtsClass(comm, s.Obs.V1)
+					v32 := ""
+					if vtsClass(comm, s.Obs.V1) == "v1-value-of-exactly-32-bytes" {
+						v32 = "v1-value-of-exactly-32-bytes"
+					}
 					if len(s.Obs.CRoot) > 0 {
 						res.Cmp()
 						if er := s.Obs.CRoot.Bytes(); !bytes.Equal(er, r.Bytes()) {
-							fail("root", vHex(er), vHex(r.Bytes()), "Commit/"+cls+"/root")
+							fail("root", vHex(er), vHex(r.Bytes()), "Commit/"+vtsFeatures(longKey, wac, v32)+"/root")
 							// the engine's own root still names what it stored: go on reading through it
 						}
 					}
 					was := failed
+					failed = false
 					fresh := NewTrieDB[hash.H256, runtime.BlakeTwo256](r, db)
-					reads(fresh, comm, "fresh-instance", cls)
-					if failed && !was {
+					reads(fresh, comm, "fresh-instance")
+					if !failed && was && wac == "" && longKey == "" {
+						// a root disagreement alone does not desynchronise the engine
+						baseNonEmpty = len(comm) > 0
 						return
 					}
-					failed = false // a root disagreement alone does not desynchronise the engine
+					failed = failed || was
+					baseNonEmpty = len(comm) > 0
 				case "Reopen":
 					tr = NewTrieDB[hash.H256, runtime.BlakeTwo256](lastRoot, db)
 					if s.Obs.V1 {
 						tr.SetVersion(trie.V1)
 					}
+					baseNonEmpty = len(comm) > 0
 				default:
 					t.Fatalf("VERIF-INFRA unknown op %q", o.Op)
 				}
 			})
 			if pm != "" {
-				fail("panic", "no panic", pm, o.Op+"/panic")
+				fail("panic", "no panic", pm, o.Op+"/"+vtsFeatures(longKey, wac)+"/"+errClass("panic", pm))
+			}
+			if !bytes.Equal(kk, k) && !failed {
+				fail("key", vHex(k), vHex(kk), o.Op+"/"+vtsFeatures(longKey, wac)+"/caller-key-overwritten")
 			}
 			if !failed {
-				reads(tr, work, "working-instance", vtsClass(work, s.Obs.V1))
+				reads(tr, work, "working-instance")
 			}
 			if failed {
 				// re-synchronise with the specification: committed state in a new database, then the working state
 				totalPuts += db.puts
 				totalDels += db.dels
 				db = vtdNewDB()
-				var r hash.H256
-				tr, r = vtdBuild(t, db, comm, s.Obs.V1)
+				_, r := vtdBuild(t, db, comm, s.Obs.V1)
 				lastRoot = r
-				for key := range comm {
-					if _, ok := work[key]; !ok {
-						_ = tr.Delete([]byte(key))
+				wac, baseNonEmpty, longKey = "", false, ""
+				for key := range work {
+					if len(key) >= 32 {
+						longKey = "long-key"
 					}
 				}
+				for key := range comm {
+					if len(key) >= 32 {
+						longKey = "long-key"
+					}
+				}
+				// the working state as an uncommitted instance over the same database
+				tr = NewEmptyTrieDB[hash.H256, runtime.BlakeTwo256](db)
+				if s.Obs.V1 {
+					tr.SetVersion(trie.V1)
+				}
 				for _, key := range vSortedKeys(work) {
-					if cv, ok := comm[key]; !ok || !bytes.Equal(cv, work[key]) {
-						_ = tr.Put([]byte(key), work[key])
+					if err := tr.Put(vtsCopy([]byte(key)), work[key]); err != nil {
+						t.Fatalf("VERIF-INFRA resync put: %v", err)
 					}
 				}
 			}
